@@ -81,6 +81,8 @@ def confirm(c, short, obs):
     """Did the native run exhibit the failure of obligation `short` (name without contract prefix)?"""
     if obs is None or 'error' in obs:
         return False, 'native rebuild/run error: %s' % (obs or {}).get('error', '?')[-300:]
+    if obs.get('hang'):
+        return False, 'the native call blocks (a wait() without timeout is reached); blocking is not modelled'
     if obs.get('script_exhausted'):
         return False, 'the path starts from a havocked loop state: the oracle script does not replay from function entry'
     if short == 'raises':
@@ -226,6 +228,10 @@ def report(a, seed, mine, results, t0):
         for ob_, (c, exp) in zip(native_replay(xc_cases), xc_expect):
             if 'error' in ob_:
                 xc['disagree'].append({'contract': c.name, 'error': ob_['error'][-300:]})
+                continue
+            if ob_.get('hang'):
+                xc['blocked'] = xc.get('blocked', 0) + 1
+                xc['inputs'] -= 1
                 continue
             got = 'return' if ob_['outcome'] == 'return' else ob_['exc_class']
             okc = (exp == 'return' and got == 'return') or \
